@@ -188,10 +188,26 @@ def check_c08(an):
         if run.outcome == 'finished' and run.server_exc is None:
             an.add('C08', 'log-parse', f'session completed but the log is unusable: '
                                       f'{an.log_json_error}')
+        elif not run.scn.get('abort') and an.offending is None:
+            an.add('C08', 'log-incomplete', f'the session of four conforming players ended '
+                                            f'{run.outcome} and left no usable log: '
+                                            f'{an.log_json_error}',
+                   key='log-incomplete:' + str(run.outcome))
         return
     exp = an.model_records
     recs = an.records
     finished = run.outcome == 'finished' and run.server_exc is None and an.all_decided
+    if not finished and not run.scn.get('abort') and an.offending is None and \
+            len(recs) < len(run.scn['boards']):
+        # "for every session the log lists the configured boards": four conforming players, no
+        # injected abort, and yet the session did not get through its boards.  (The same run is a
+        # C09 finding; it is reported here too because the log of this session is incomplete.)
+        why = run.outcome if run.server_exc is None else f'{run.server_exc[0]}: {run.server_exc[1][:120]}'
+        an.add('C08', 'log-incomplete', f'the session of four conforming players ended "{why}" and '
+                                        f'its log lists {len(recs)} of the '
+                                        f'{len(run.scn["boards"])} configured boards',
+               key='log-incomplete:' + (run.outcome if run.server_exc is None
+                                        else run.server_exc[0]))
     if finished and len(recs) != len(exp):
         an.add('C08', 'log-count', f'{len(recs)} records in the log, {len(exp)} boards played')
     if len(recs) > len(exp):
